@@ -1596,18 +1596,28 @@ func (e *Engine) bytesToString(s *SliceV, pos token.Pos) *StrV {
 			out = append(out, StrAlt{G: a.G, S: ""})
 			continue
 		}
-		// symbolic length: one alternative per feasible length
+		// symbolic length and/or offset: one alternative per feasible (offset, length) pair
 		if !a.Len.IsConst() || !a.Off.IsConst() {
-			if !a.Off.IsConst() {
-				panic(e.unsupported("string(bytes) with symbolic offset"))
+			cells := e.arrCells(a.Arr)
+			offLo, offHi := 0, len(cells)
+			if a.Off.IsConst() {
+				offLo, offHi = int(a.Off.C), int(a.Off.C)
+			} else if u := tb.UB(a.Off); u < uint64(offHi) {
+				offHi = int(u)
 			}
-			off := int(a.Off.C)
-			for n := 0; n+off <= len(a.Arr.E); n++ {
-				g := tb.And(a.G, tb.Eq(a.Len, tb.Int(int64(n))))
-				if tb.And(e.G, g).IsFalse() {
+			maxN := e.lenUB(a)
+			for off := offLo; off <= offHi; off++ {
+				gOff := tb.Eq(a.Off, tb.Int(int64(off)))
+				if tb.And(e.G, a.G, gOff).IsFalse() {
 					continue
 				}
-				out = append(out, e.mkStrAlt(g, e.arrCells(a.Arr)[off:off+n]))
+				for n := 0; n+off <= len(cells) && n <= maxN; n++ {
+					g := tb.And(a.G, gOff, tb.Eq(a.Len, tb.Int(int64(n))))
+					if tb.And(e.G, g).IsFalse() {
+						continue
+					}
+					out = append(out, e.mkStrAlt(g, cells[off:off+n]))
+				}
 			}
 			continue
 		}
